@@ -78,6 +78,8 @@ def gen_spec(rng, depth):
         if cands and rng.random() < 0.7:
             f = rng.choice(cands)
             spec.post_init = ('raise_if', f.name, rng.choice((0, 1, 5, 7)) if f.ty.k == 'int' else rng.choice(('abc', 'a', '')))
+        elif rng.random() < 0.5 and any(f.init and f.has_default() for f in spec.fields):
+            spec.post_init = ('raise_if_set', rng.choice([f for f in spec.fields if f.init and f.has_default()]).name)
         else:
             spec.post_init = 'raise'
     else:
@@ -92,7 +94,7 @@ def model_style_ok(name):
 
 def shape(spec):
     return (tuple(sorted(spec.opts.get('in_format', ('struct',)))), bool(spec.opts.get('kw_only')),
-            tuple((f.ty.k, f.dflt, f.kw_only, f.init) for f in spec.fields), spec.post_init if not isinstance(spec.post_init, tuple) else 'raise_if')
+            tuple((f.ty.k, f.dflt, f.kw_only, f.init) for f in spec.fields), spec.post_init if not isinstance(spec.post_init, tuple) else spec.post_init[0])
 
 
 def run(ctx):
@@ -217,6 +219,10 @@ def run(ctx):
             raise_expected = False
             if S.post_init == 'raise':
                 raise_expected = True
+            elif isinstance(S.post_init, tuple) and S.post_init[0] == 'raise_if_set':
+                raise_expected = S.post_init[1] in args
+                if expect_ok:
+                    ctx.count('set_record_hook_cases')
             elif isinstance(S.post_init, tuple) and expect_ok:
                 fname, val = S.post_init[1], S.post_init[2]
                 f0 = next((f for f in fields if f.name == fname), None)
